@@ -1120,7 +1120,7 @@ func dbtype(abitype string, d []byte) any {
 			return d[12:]
 		}
 		return d
-	case abitype == "bool":
+	case strings.HasPrefix(abitype, "bool"):
 		if len(d) == 32 {
 			return d[31] == 0x01
 		}
